@@ -202,7 +202,11 @@ Record code := {
   k_fix_constref : bool;
   (* Namespace.__init__ passes the namespace file stem through _checked_namespace_file_stem(): a stem that is empty, `.`, `..`
      or contains a path separator raises ValueError before anything is listed or written *)
-  k_stem_check : bool
+  k_stem_check : bool;
+  (* design_notes/C08_list_inputs_closure_fix.patch: get_templates lists .py resources too (only __init__.py and byte code are
+     not resources) and walks symbolically linked sub-directories of a templates directory *)
+  k_fix_pyres : bool;
+  k_fix_linkdir : bool
 }.
 
 (* ------------------------------------------------------------------------------------------ *)
@@ -243,7 +247,9 @@ Record tfile := {
   tf_name : str;          (* loader-relative template name, e.g. base.j2, assets/x.css *)
   tf_path : path;
   tf_j2 : bool;           (* suffix == TEMPLATE_SUFFIX *)
-  tf_py : bool;           (* .py/.pyc/.pyo or below __pycache__: what makes the directory a Python package *)
+  tf_py : bool;           (* .py/.pyc/.pyo or below __pycache__ *)
+  tf_pkg : bool;          (* __init__.py, byte code, __pycache__: what makes the directory a Python package *)
+  tf_linked : bool;       (* reached through a sub-directory that is a symbolic link (the loader serves it all the same) *)
   tf_cls : option cls;    (* top-level file whose stem is a class name *)
   tf_refs : list str;     (* constant targets of its include / import / from-import / extends statements *)
   tf_dyn : bool           (* has such a statement with a computed target (include x | type_to_template): any class template *)
@@ -425,7 +431,9 @@ Fixpoint gen_all (k : code) (c : cfg) (g : genid) (dry aow : bool) (its : list i
   end.
 
 (* ---- list-inputs enumeration -------------------------------------------------------------- *)
-Definition listable (k : code) (f : tfile) : bool := if k_fix_nonj2 k then negb (tf_py f) else tf_j2 f.
+Definition listable (k : code) (f : tfile) : bool :=
+  (k_fix_linkdir k || negb (tf_linked f))
+  && (if k_fix_nonj2 k then (if k_fix_pyres k then negb (tf_pkg f) else negb (tf_py f)) else tf_j2 f).
 Definition listable_paths (k : code) (d : tdir) : list path := map tf_path (filter (listable k) d).
 
 (* the path SupportGenerator.get_templates yields for a packaged resource *)
@@ -622,7 +630,9 @@ Definition support_consistent (c : cfg) : bool :=
 Definition trig_constref (i : inputs) : bool := existsb (fun t => nonempty_keys (t_crefs t)) (all_types i).
 Definition eff_trig_lookup (k : code) (i : inputs) : bool :=
   if k_fix_lookup k && k_fix_constref k then false else trig_constref i || (negb (k_fix_lookup k) && trig_lookup i).
-Definition eff_trig_tpl (k : code) (c : cfg) (i : inputs) : bool := if k_fix_nonj2 k then trig_py k c i else trig_nonj2 k c i.
+(* some template of the derived closure is a file the tree's get_templates does not enumerate: with all repairs only
+   __init__.py / byte code; without C08_list_inputs_closure_fix also any .py resource and anything below a linked directory *)
+Definition eff_trig_tpl (k : code) (c : cfg) (i : inputs) : bool := existsb (fun f => negb (listable k f)) (type_templates k c i).
 Definition eff_trig_sup (k : code) (c : cfg) : bool := (negb (k_fix_suptpl k) && trig_support_override k c) || trig_sup_refs k c.
 
 (* ---- decidable conditions on the translated code (proved for Gen_Listing.the_code by computation) ---- *)
@@ -717,6 +727,6 @@ Definition report (k : code) (c : cfg) (i : inputs) : str :=
   ++ [10; 48 + result_code r4; 10] ++ show_paths (filter (fun p => is_file (f1 p)) (dedup (cand_paths k (real_of c) i))) ++ [10]
   ++ show_paths (influence_set k c i) ++ [10]
   ++ [b2n (trig_lookup i); b2n (trig_nonj2 k c i); b2n (trig_support_override k c); b2n (support_consistent c);
-      b2n (k_fix_lookup k); b2n (k_fix_nonj2 k); b2n (k_fix_suptpl k); b2n (trig_py k c i); b2n (k_path_pure k); b2n (trig_sup_refs k c); b2n (k_fix_constref k); b2n (trig_constref i); b2n (k_stem_check k);
+      b2n (k_fix_lookup k); b2n (k_fix_nonj2 k); b2n (k_fix_suptpl k); b2n (trig_py k c i); b2n (k_path_pure k); b2n (trig_sup_refs k c); b2n (k_fix_constref k); b2n (trig_constref i); b2n (k_stem_check k); b2n (k_fix_pyres k); b2n (k_fix_linkdir k); b2n (eff_trig_tpl k c i);
       48 + result_code r5]
   ++ [10] ++ show_paths (filter (fun p => is_dir (f1 p)) (dedup (flat_map parents (dedup (cand_paths k (real_of c) i))))).
